@@ -89,6 +89,38 @@ func yieldParamOf(fn *ssa.Function) *ssa.Parameter {
 func paramAliases(w *World, fn *ssa.Function) map[ssa.Value]string {
 	out := map[ssa.Value]string{}
 	if fn.Parent() != nil {
+		// a function literal invoked where it stands: its parameters are the arguments
+		if mc := makeClosureOf(fn); mc != nil && mc.Referrers() != nil {
+			var call *ssa.Call
+			n := 0
+			for _, ref := range *mc.Referrers() {
+				if _, isDbg := ref.(*ssa.DebugRef); isDbg {
+					continue
+				}
+				n++
+				if c, ok := ref.(*ssa.Call); ok && c.Call.Value == ssa.Value(mc) {
+					call = c
+				}
+			}
+			if n == 1 && call != nil && len(call.Call.Args) == len(fn.Params) {
+				for i, p := range fn.Params {
+					out[p] = Expr(call.Call.Args[i])
+				}
+			}
+			return out
+		}
+		// without captured variables the literal is called like a plain function
+		var calls []*ssa.Call
+		eachInstr(fn.Parent(), func(in ssa.Instruction) {
+			if c, ok := in.(*ssa.Call); ok && c.Call.StaticCallee() == fn {
+				calls = append(calls, c)
+			}
+		})
+		if len(calls) == 1 && len(calls[0].Call.Args) == len(fn.Params) {
+			for i, p := range fn.Params {
+				out[p] = Expr(calls[0].Call.Args[i])
+			}
+		}
 		return out
 	}
 	callers := w.CallersOf(fn)
